@@ -8,7 +8,9 @@
 (*   x wrapping (bare, fmt "%w" with and without a prefix, HTTP wrapper    *)
 (*     with each sampled status, fmt around a 416 wrapper, a 404 wrapper   *)
 (*     around a 416 wrapper)  +  HTTP wrapper around nil                   *)
-(*   x carrier kind x 0..MaxHops hops.                                     *)
+(*   x carrier kind x 0..MaxHops hops;                                     *)
+(* plus the status sweep: every status 400..599 as the own status of a     *)
+(* no-code and of a custom-code error.                                     *)
 (* A behaviour is one case: Init picks it, each step is one hop.           *)
 (*                                                                         *)
 (* Two modes, both swept inside one TLC run (Init chooses):                *)
@@ -19,7 +21,7 @@
 (***************************************************************************)
 EXTENDS OciError, Json
 
-CONSTANTS Modes, MaxHops, Statuses, Kinds, Export
+CONSTANTS Modes, MaxHops, Statuses, SweepStatuses, Kinds, Export
 
 SelfNamed == {"MANIFEST_INVALID", "BLOB_UPLOAD_INVALID"}  \* message text = own code prefix
 MCStdMsg == [c \in StdCodes |-> IF c \in SelfNamed THEN <<C(c)>> ELSE <<M(c)>>]
@@ -58,12 +60,20 @@ WS == {<<w, s>> : w \in Wraps \ {"http"}, s \in {0}} \cup {<<"http", s>> : s \in
 Domain == UNION {{Wrapped(x, ws[1], ws[2]) : x \in Leaves(c, FinalStatus(c, ws[1], ws[2]))} : c \in Codes, ws \in WS}
           \cup {Http(s, <<>>) : s \in Statuses}
 
+\* Status sweep: EVERY own status (400..599 in the configs) around a no-code and a custom-code
+\* error, so that a status-specific rule anywhere (client HEAD mapping, httpError.Is, table)
+\* is met whatever the status.
+SweepAll == 400..599
+SweepDomain == {Http(s, <<Plain(<<B("b1")>>)>>) : s \in SweepStatuses}
+               \cup {Http(s, <<New("CUSTOM_CODE", <<B("b1")>>, "none")>>) : s \in SweepStatuses}
+FullDomain == Domain \cup SweepDomain
+
 VARIABLES mode, t0, kind, k, cur
 vars == <<mode, t0, kind, k, cur>>
 Impl416 == mode = "impl"
 TrimExact == mode = "design"
 
-Init == mode \in Modes /\ t0 \in Domain /\ kind \in Kinds /\ k = 0 /\ cur = t0
+Init == mode \in Modes /\ t0 \in FullDomain /\ kind \in Kinds /\ k = 0 /\ cur = t0
 Next == k < MaxHops /\ k' = k + 1 /\ cur' = Hop(cur, kind, TrimExact) /\ UNCHANGED <<mode, t0, kind>>
 Spec == Init /\ [][Next]_vars
 
@@ -107,5 +117,5 @@ FirstHopMessage == (k = 1 /\ Body) =>
   Msg(cur) = <<S(Status(t0)), C(WireCode(t0))>> \o (IF WireMsg(t0, TrimExact) = <<E>> THEN <<>> ELSE WireMsg(t0, TrimExact))
 
 \* ------------------------------------------------------------------- export
-Emit == (Export /\ k = 0) => PrintT(<<"MBT", ToJson([err |-> t0, kind |-> kind])>>)
+Emit == (Export /\ k = 0) => PrintT(<<"MBT", ToJson([err |-> t0, kind |-> kind, sweep |-> t0 \in SweepDomain])>>)
 =============================================================================
